@@ -151,6 +151,9 @@ def _toplevel_fillers(tree, name):
     return out
 
 
+_MUTATORS = ("pop", "popleft", "popitem", "setdefault", "add", "discard", "extendleft", "remove", "clear", "insert")
+
+
 def _is_generator(fnode):
     """Does the function body (not nested functions) contain a yield?"""
     stack = list(fnode.body)
@@ -200,7 +203,8 @@ def assigned_names(stmts):
                 if "__yield__" not in out:
                     out.append("__yield__")
             elif isinstance(n, ast.Call) and isinstance(n.func, ast.Attribute) and n.func.attr in (
-                    "append", "extend", "update", "pop", "insert", "remove", "clear", "popleft", "appendleft", "reverse", "sort"):
+                    "append", "extend", "update", "pop", "insert", "remove", "clear", "popleft", "appendleft", "reverse", "sort",
+                    "setdefault", "add", "discard", "popitem", "extendleft", "__setitem__", "__delitem__"):
                 base = n.func.value
                 while isinstance(base, ast.Subscript):
                     base = base.value
@@ -1335,6 +1339,8 @@ class Evaluator:
         gen = e.generators[gi]
         it = self.expr(gen.iter, sub)
         seq = _concrete_iter(it)
+        if seq is None:
+            seq = self._bound_length_iter(it)
         last = gi == len(e.generators) - 1
 
         def body(s):
@@ -1429,6 +1435,8 @@ class Evaluator:
                     return self.method(self.ref(r[1]), r[2], pos, kw, e, fr)
                 return self.call_ref(r, pos, kw, e, fr)
             recv = self.expr(f.value, fr)
+            if f.attr in _MUTATORS and not isinstance(recv, (str, bytes, int, float)) and tm.tyof(recv) in (tm.LIST, tm.DICT, tm.ANY, tm.BYTES):
+                return self.mutating_call(f.value, recv, f.attr, pos, kw, e, fr)
             return self.method(recv, f.attr, pos, kw, e, fr)
         if isinstance(f, ast.Name):
             if f.id in fr.env:
@@ -1440,6 +1448,38 @@ class Evaluator:
             return self.call_ref(r, pos, kw, e, fr)
         fv = self.expr(f, fr)
         return self.call_value(fv, pos, kw, e, fr)
+
+    def mutating_call(self, recv_node, recv, meth, pos, kw, e, fr):
+        """A mutating container method in expression position (x = stack.pop(), d.setdefault(k, v)): done on a concrete
+        container with a concrete key; otherwise the value is the generic method term and the container is marked mutated."""
+        def conc_key(k):
+            return tm.is_conc(k) and not isinstance(k, (list, dict, T))
+        try:
+            if isinstance(recv, list) and meth == "pop" and not kw and (not pos or (len(pos) == 1 and isinstance(pos[0], int) and not isinstance(pos[0], bool))):
+                return recv.pop(*pos)
+            if isinstance(recv, list) and meth == "popleft" and not pos and not kw:
+                return recv.pop(0)
+            if isinstance(recv, dict) and meth == "pop" and not kw and 1 <= len(pos) <= 2 and conc_key(pos[0]) and all(conc_key(k) for k in recv):
+                if pos[0] in recv or len(pos) == 2:
+                    return recv.pop(*pos)
+            if isinstance(recv, dict) and meth == "setdefault" and not kw and 1 <= len(pos) <= 2 and conc_key(pos[0]) and all(conc_key(k) for k in recv):
+                return recv.setdefault(pos[0], pos[1] if len(pos) == 2 else None)
+        except (IndexError, KeyError):
+            return T("raise", ("IndexError" if isinstance(recv, list) else "KeyError",))
+        res = self.method(recv, meth, pos, kw, e, fr)
+        mark = T("mutated", (meth, tm._fz(recv)) + tuple(tm._fz(a) for a in pos), tm.tyof(recv) if tm.tyof(recv) != tm.ANY else (tm.LIST if isinstance(recv, list) else tm.DICT if isinstance(recv, dict) else tm.ANY))
+        if isinstance(recv_node, ast.Name):
+            if recv_node.id in fr.env:
+                fr.env[recv_node.id] = mark
+        elif isinstance(recv_node, ast.Attribute):
+            parts = dotted_parts(recv_node)
+            if parts:
+                fr.env[".".join(parts)] = mark
+        elif isinstance(recv_node, ast.Subscript):
+            nm = _root_name(recv_node)
+            if nm and nm in fr.env:
+                fr.env[nm] = T("mutated", (meth, tm._fz(fr.env[nm]), tm._fz(recv)) + tuple(tm._fz(a) for a in pos), tm.tyof(fr.env[nm]))
+        return res
 
     def call_value(self, fv, pos, kw, e, fr):
         if isinstance(fv, T) and fv.op == "fn":
@@ -1550,7 +1590,9 @@ class Evaluator:
                 except (UnicodeError, LookupError, AttributeError):
                     pass
             enc = str(enc).lower().replace("-", "") if isinstance(enc, str) else enc
-            return T(meth, (recv, enc), tm.BYTES if meth == "encode" else tm.STR)
+            if meth == "encode":
+                return tm.encode(recv, enc)
+            return T(meth, (recv, enc), tm.STR)
         if meth in ("startswith", "endswith") and len(pos) == 1:
             if tm.is_conc(recv) and tm.is_conc(pos[0]):
                 return getattr(recv, meth)(pos[0])
@@ -1915,7 +1957,7 @@ class Evaluator:
                 dklen = tm.HASHLEN.get(algo)
             return T("pbkdf2", (algo, pos[1], pos[2], pos[3], dklen), tm.BYTES)
         if n == "unicodedata.normalize":
-            return T("normalize", (a0, pos[1]), tm.STR)
+            return tm.normalize(a0, pos[1])
         if n in ("copy.copy", "copy.deepcopy"):
             return clone(a0)
         if n == "secrets.randbelow":
